@@ -122,7 +122,8 @@ def attack_from_trace(trace):
 def gen_table(maxi, wd, pairs=True):
     c = dict(BASE)
     c.update(MaxI=maxi, OutFile="table.json", AttDomsT={"att", "other"}, PropDomsT={"prop", "other"},
-             GenDomsT={"att", "prop", "exit", "randao", "deposit", "selection", "aggregate", "sync", "syncsel", "contrib", "appmask", "other", "att2", "prop2"},
+             GenDomsT={"att", "prop", "exit", "randao", "deposit", "selection", "aggregate", "sync", "syncsel", "contrib", "appmask", "other", "att2", "prop2",
+                       "shift4:att", "shift4:prop", "shift1:att", "shift31:prop", "shift16:att", "shift4:exit", "shift4:randao"},
              RootsT={"A", "B"}, WithPairs=pairs)
     r = tlc("SlashTable", make_cfg(c), wd, name="SlashTable", workers=1)
     require_ok(r, "SlashTable")
@@ -445,6 +446,17 @@ def run(prop, tier, seed):
                     b.add_history(None, [dict(op="att", s=q["s1"], t=q["t1"], root=q["r1"], v=q["v1"], by=("name", "key")[qi % 2]),
                                          dict(op="att", s=q["s2"], t=q["t2"], root=q["r2"], v=q["v2"], by=("keypad", "name", "key")[(qi + ci) % 3])],
                                   (q["ns"], q["nt"], None), batchable=True)
+                # the same pairs in batches that also carry a REFUSED entry: every pair lane is followed by a companion lane whose
+                # request (target before source) is refused at every step, so each batch reads approved/denied alternately
+                b.flush()
+                b.force_batch = True
+                hotp = sorted((q for q in table["attpairs"] if q["v1"] == "APPROVED"), key=lambda q: json.dumps(q, sort_keys=True))
+                for qi, q in enumerate(rnd.sample(hotp, min(len(hotp), 120 if tier == "quick" else 1200))):
+                    b.add_history(None, [dict(op="att", s=q["s1"], t=q["t1"], root=q["r1"], v=q["v1"]), dict(op="att", s=q["s2"], t=q["t2"], root=q["r2"], v=q["v2"])],
+                                  (q["ns"], q["nt"], None), batchable=True)
+                    b.add_history(None, [dict(op="att", s=2, t=1, root="Z", v="DENIED"), dict(op="att", s=3, t=1, root="Z", v="DENIED")], (-1, -1, None), batchable=True)
+                b.flush()
+                b.force_batch = None
             if "prop" in p["kinds"] and prop in ("C02", "C09"):
                 for qi, q in enumerate(table["proppairs"]):
                     b.add_history(None, [dict(op="prop", slot=q["slot1"], root=q["r1"], v=q["v1"], by=("name", "key")[qi % 2]),
@@ -539,6 +551,34 @@ def run(prop, tier, seed):
                 binary = dict(scenarios=len(bscs), requests=sum(1 for e in bevents if e["ev"] == "Respond"), releases=sum(1 for e in bevents if e["ev"] == "Release"),
                               restarts=sum(1 for e in bevents if e["ev"] == "Restart"))
                 remote_lookup = {sid_: v for sid_, v in bmeta.items()}
+        # the write of the record fails (injected storage error that persists over retries) for a request AND for its conflicting twin:
+        # a lifetime that includes a full disk or a store being closed must not contain both signatures either
+        fault_scs = []
+        if prop in ("C01", "C02"):
+            conc0 = concs[0][1]
+            def fsc(i, kind, site, e1, e2):
+                return dict(id="%s-storefault-%d" % (prop, i), world=dict(nkeys=2), conc=conc0,
+                            faults=[dict(site=site, rid=r_, key="k0", kind="error") for r_ in ("q1", "q2")],
+                            ops=[dict(id="q1", kind=kind, ents=e1), dict(id="q2", kind=kind, ents=e2), dict(id="rs", kind="restart"), dict(id="q3", kind=kind, ents=e2)])
+            if prop == "C01":
+                fault_scs = [fsc(0, "att", "store.store.enter", [dict(k=0, s=0, t=1, root="A")], [dict(k=0, s=0, t=1, root="B")]),
+                             fsc(1, "atts", "store.batch.enter", [dict(k=0, s=0, t=1, root="A"), dict(k=1, s=0, t=1, root="A")], [dict(k=0, s=0, t=1, root="B"), dict(k=1, s=0, t=1, root="B")]),
+                             fsc(2, "att", "store.store.enter", [dict(k=0, s=1, t=3, root="A")], [dict(k=0, s=2, t=2, root="B")])]
+            else:
+                fault_scs = [fsc(0, "prop", "store.store.enter", [dict(k=0, slot=2, root="A")], [dict(k=0, slot=2, root="B")]),
+                             fsc(1, "prop", "store.store.enter", [dict(k=0, slot=3, root="A")], [dict(k=0, slot=1, root="B")])]
+            fev, frc, ferr = run_driver(fault_scs, wd, tag="storefault", timeout=300)
+            if frc != 0:
+                raise Inconclusive("store-fault scenarios: driver exited %s: %s" % (frc, ferr[-300:]))
+            fby = split_scenarios(fev)
+            for sc_ in fault_scs:
+                end = [e for e in fby[sc_["id"]] if e["ev"] == "End"]
+                if not (end and end[0]["faults_hit"]):
+                    raise Inconclusive("store-fault scenario %s: the injected error never fired" % sc_["id"])
+                start = len(lines) + 1
+                project_one(sc_["id"], {}, [], fby[sc_["id"]], lines)
+                index.append((start, len(lines), sc_["id"]))
+            nsc += len(fault_scs)
         race = None
         race_scs = []
         if prop in ("C01", "C02"):
@@ -575,7 +615,7 @@ def run(prop, tier, seed):
                 for s in b.scenarios:
                     if s["id"] == sid:
                         sc, smeta, sfloors = s, b.meta[sid], b.expect[sid]["floors"]
-            for s in race_scs:
+            for s in race_scs + fault_scs:
                 if s["id"] == sid:
                     sc, smeta, sfloors = s, {}, []
             if binary and sid in remote_lookup:
